@@ -557,6 +557,19 @@ def parse(lines):
 
 # ------------------------------------------------------------------------------------------------ the oracle
 
+def pat(base, off, n):
+    """n pattern bytes from offset off (the harness indexes the pattern modulo its size)"""
+    off %= len(base)
+    if off + n <= len(base):
+        return base[off:off + n]
+    out = base[off:]
+    n -= len(out)
+    while n > 0:
+        out += base[:n]
+        n -= min(n, len(base))
+    return out
+
+
 def judge(s, ev, base):
     """clauses of the property checked directly on what was observed. returns list of (clause, text)"""
     bad = []
@@ -617,7 +630,7 @@ def judge(s, ev, base):
                 if h["size"] > 0:
                     if h["size"] > high:
                         fail("high_water", "%s: delivery of %d bytes exceeds high-water %d" % (tag, h["size"], high))
-                    exp = zlib.crc32(base[pos:pos + h["size"]]) & 0xffffffff
+                    exp = zlib.crc32(pat(base, pos, h["size"])) & 0xffffffff
                     if exp != h["crc"]:
                         fail("read_conservation", "%s: delivered bytes at stream offset %d (+%d) differ from what the "
                              "descriptor returned" % (tag, pos - s.rbase, h["size"]))
@@ -628,7 +641,7 @@ def judge(s, ev, base):
                 fail("read_conservation", "%s done without error after %d of %d bytes and no EOF" % (tag, moved, o["length"]))
             roff += moved
         else:
-            subm = base[o["woff"]:o["woff"] + o["length"]]
+            subm = pat(base, o["woff"], o["length"])
             wexpect += subm[:moved]
             for h in hs:
                 if h["size"] >= 0:
